@@ -21,6 +21,7 @@ namespace {
 
 struct Book;
 Book* g_book = nullptr;
+thread_local int t_inResize = 0;
 void noteCapture(int set);
 dispenso::ThreadPool* g_pool = nullptr;
 const void* g_sets[64];
@@ -51,6 +52,7 @@ extern "C" void dispenso_verif_hook(const char* what, const void* obj, long a, l
   if (std::strncmp(what, "wake.", 5) == 0) return;  // call markers of the wake protocol (C07 / C09), not ledger events
   dsched::noPreempt(true);
   if (eq(what, "pool.ctor")) g_pool = const_cast<dispenso::ThreadPool*>(static_cast<const dispenso::ThreadPool*>(obj));
+  if (eq(what, "pool.resize.begin")) dsched::ghostAdd(16, 1);   // lets a scenario wait until a resize is under way
   if (eq(what, "pool.inline0") || eq(what, "pool.inline") || eq(what, "pool.take.central") || eq(what, "pool.resize.begin") ||
       eq(what, "pool.dtor.begin") || eq(what, "pool.dtor.end"))
     dsched::note("h %s", what);
@@ -79,17 +81,17 @@ constexpr int kMaxIds = 4096;
 // opaque calls (std::vector / ghost counters), see dsched.h
 struct Book {
   // tables live in the scheduler runtime's cell array (opaque accessors): see dsh::CellVec
-  dsh::CellVec ran, ended, setOf, fq, submitter, inCall, ranOnCaller, subAfterCancelRet;   // per task id
+  dsh::CellVec ran, ended, setOf, fq, submitter, inCall, ranOnCaller, subAfterCancelRet, byResizer;   // per task id
   dsh::CellVec cancelRet;       // per set: cancel() has returned
   dsh::CellVec everCancelled;
-  dsh::CellVec excThrown, excSeen, captures, parentOf;  // per set (parentOf: ParentCascadeCancel::kOn parent, 0 = none)
+  dsh::CellVec excThrown, excSeen, captures, parentOf, excDirect;  // per set (parentOf: ParentCascadeCancel::kOn parent, 0 = none)
   int poolNeverZero = 1;
   Book() {
     int at = 0;
     auto mk = [&](int n, int init = 0) { dsh::CellVec v(at, n, init); at += n; return v; };
     ran = mk(kMaxIds); ended = mk(kMaxIds); setOf = mk(kMaxIds, -1); fq = mk(kMaxIds); submitter = mk(kMaxIds, -1);
-    inCall = mk(kMaxIds); ranOnCaller = mk(kMaxIds); subAfterCancelRet = mk(kMaxIds);
-    cancelRet = mk(64); everCancelled = mk(64); excThrown = mk(64); excSeen = mk(64); captures = mk(64); parentOf = mk(64);
+    inCall = mk(kMaxIds); ranOnCaller = mk(kMaxIds); subAfterCancelRet = mk(kMaxIds); byResizer = mk(kMaxIds);
+    cancelRet = mk(64); everCancelled = mk(64); excThrown = mk(64); excSeen = mk(64); captures = mk(64); parentOf = mk(64); excDirect = mk(64);
   }
 };
 void noteCapture(int set) { if (g_book && set < 64) g_book->captures[set]++; }
@@ -104,6 +106,7 @@ struct Scn {
 struct Actor;
 void runOps(Actor& a, int nOps, int depth);
 void chainStep(Actor& a, int left, int path);
+void PoolApiFwd(Actor& a);   // force-queue one directly scheduled task
 
 struct Actor {
   Scn* sc;
@@ -140,6 +143,8 @@ struct Body {
   int chainPath = 0;     // 0 pool.schedule, 1 shared set schedule
   bool selfCancel = false;
   std::atomic<int>* hold = nullptr;   // filler: keeps running until *hold becomes non-zero
+  int lingering = 0;                  // the body yields this many times before it ends (bodies that overlap waits / cancels)
+  bool followUp = false;              // the body force-queues a directly scheduled follow-up task
   void operator()() {
     Book& b = *g_book;
     dsched::note("begin %d", id);
@@ -156,6 +161,11 @@ struct Body {
         b.cancelRet[s] = 1;
         dsched::note("ret cancel %d", s);
       }
+    }
+    for (int y = 0; y < lingering; ++y) std::this_thread::yield();
+    if (followUp) {
+      Actor me(sc, seed ^ 0x9e3779b97f4a7c15ULL, shared, sharedId);
+      PoolApiFwd(me);
     }
     if (hold) {
       while (!hold->load(std::memory_order_acquire)) std::this_thread::yield();
@@ -185,22 +195,26 @@ Body mkBody(Actor& a, int set, bool fq, int depth, int afterCancel = -1) {
   b.setOf[id] = set;
   b.fq[id] = fq;
   b.submitter[id] = dsched::tid();
+  b.byResizer[id] = t_inResize;   // submitted by a task that resize() itself is running on this thread
   // afterCancel: whether a cancel() of the set (or a cascading ancestor) had returned when the *call* started
   if (set > 0 && (afterCancel < 0 ? cancelledByReturnedCall(set) : afterCancel != 0)) b.subAfterCancelRet[id] = 1;
-  bool thr = a.sc->throwing && set > 0 && a.rng.below(5) == 0;
+  bool thr = a.sc->throwing && set > 0 && a.rng.below(a.sc->flavour == 5 ? 3 : 5) == 0;
   // only task-set tasks do nested work: they finish before their set's wait(), hence before the pool dies
   bool nest = set > 0 && depth > 0 && a.rng.below(3) == 0;
   Body body{id, a.sc, a.shared, a.sharedId, nest ? depth : 0, thr, a.rng.next()};
-  body.selfCancel = set > 0 && !thr && a.rng.below(14) == 0;
+  body.selfCancel = set > 0 && a.rng.below(thr ? 3 : 14) == 0;
+  body.lingering = a.rng.below(a.sc->flavour == 5 ? 2 : 3) == 0 ? 1 + (int)a.rng.below(6) : 0;
+  body.followUp = set > 0 && a.sc->flavour == 2 && a.rng.below(4) == 0;   // a thrower that cancels first: the exception must still be delivered
   return body;
 }
 
 template <typename F>
-void guardedCall(F&& f) {
+void guardedCall(int set, F&& f) {
   try {
     f();
   } catch (const std::runtime_error&) {
     // an unpackaged inline run may propagate the body's exception to the scheduling caller (documented)
+    if (set > 0 && set < 64) g_book->excDirect[set]++;
   }
 }
 
@@ -211,7 +225,7 @@ void singleOn(Actor& a, Set& ts, int set, bool fq, int depth) {
   int id = body.id;
   b.inCall[id] = 1;
   dsched::note("call sched %d %d %d", set, id, fq ? 1 : 0);
-  guardedCall([&] {
+  guardedCall(set, [&] {
     if (fq) ts.schedule(std::move(body), dispenso::ForceQueuingTag());
     else ts.schedule(std::move(body));
   });
@@ -225,14 +239,20 @@ void bulkOn(Actor& a, Set& ts, int set, bool fq, int count, int depth) {
   std::vector<int> ids;
   int afterCancel = set > 0 && cancelledByReturnedCall(set) ? 1 : 0;
   dsched::note("call bulk %d %d", set, fq ? 1 : 0);
+  bool gate = a.sc->flavour == 2 && set > 0 && a.rng.below(2) == 0;   // resize-heavy runs: let a resize finish inside the bulk call
   auto gen = [&](size_t) {
+    if (gate) {
+      gate = false;
+      long e0 = dsched::ghostGet(15);
+      for (int y = 0; y < 400 && dsched::ghostGet(15) < e0 + 1 + (long)(a.rng.below(2)); ++y) std::this_thread::yield();
+    }
     Body body = mkBody(a, set, fq, depth, afterCancel);
     b.inCall[body.id] = 1;
     ids.push_back(body.id);
     dsched::note("gen %d", body.id);
     return body;
   };
-  guardedCall([&] {
+  guardedCall(set, [&] {
     if (fq) ts.scheduleBulk((size_t)count, gen, dispenso::ForceQueuingTag());
     else ts.scheduleBulk((size_t)count, gen);
   });
@@ -371,12 +391,17 @@ void chainStep(Actor& a, int left, int path) {
   int id = body.id;
   b.inCall[id] = 1;
   dsched::note("call sched %d %d 0", set, id);
-  guardedCall([&] {
+  guardedCall(set, [&] {
     if (path == 0) api.schedule(std::move(body));
     else a.shared->schedule(std::move(body));
   });
   b.inCall[id] = 0;
   dsched::note("ret sched");
+}
+
+void PoolApiFwd(Actor& a) {
+  PoolApi api;
+  singleOn(a, api, 0, true, 0);
 }
 
 void runOps(Actor& a, int nOps, int depth) {
@@ -428,6 +453,18 @@ int main(int argc, char** argv) {
       resizes = false;
       signaling = true;
     }
+    if (flavour == 5) {   // exception-heavy: every scenario throws, with lingering siblings
+      sc.throwing = true;
+      if (sc.poolSize == 0) sc.poolSize = 1 + (int)rng.below(3);
+    }
+    // resize(0) blocked in join() by a busy worker while a ring-routed bulk arrives; the resizer then drains the rings itself
+    bool drainy = flavour == 2 && rng.below(5) == 0;
+    if (drainy) {
+      sc.poolSize = 2 + (int)rng.below(2);
+      sc.loadMult = 32;
+      sc.producers = 0;
+      signaling = true;
+    }
     bool sleepy = flavour == 4;   // workers are let to park between submissions: ring-routed bulk, then placed tasks through steal rings
     if (sleepy) {
       sc.poolSize = 2 + (int)rng.below(2);
@@ -439,7 +476,7 @@ int main(int argc, char** argv) {
     bool parkFirst = sleepy || (!chain && sc.poolSize > 0 && signaling && rng.below(3) == 0);   // workers asleep: proactive wake / steal rings
     std::string desc = "sched pool=" + std::to_string(sc.poolSize) + " load=" + std::to_string(sc.loadMult) +
         " producers=" + std::to_string(sc.producers) + " resizes=" + std::to_string(resizes) + " chain=" + std::to_string(chain) +
-        " park=" + std::to_string(parkFirst) + " sleepy=" + std::to_string(sleepy) + " throwing=" +
+        " park=" + std::to_string(parkFirst) + " sleepy=" + std::to_string(sleepy) + " drainy=" + std::to_string(drainy) + " throwing=" +
         std::to_string(sc.throwing) + " signaling=" + std::to_string(signaling) + " seed=" + std::to_string(o.seed);
     auto& c = dsh::stuckCtx();
     c.signature = resizes ? "pool / task-set operation never returns while the pool is being resized"
@@ -514,6 +551,44 @@ int main(int argc, char** argv) {
               std::this_thread::sleep_for(std::chrono::microseconds(100));
             }
           };
+          if (drainy) {
+            PoolApi api;
+            std::atomic<int> release{0};
+            Body blocker = mkBody(mainA, 0, true, 0);
+            blocker.thrower = false; blocker.selfCancel = false; blocker.lingering = 0; blocker.followUp = false; blocker.hold = &release;
+            int bid = blocker.id;
+            dsched::note("call sched 0 %d 1", bid);
+            api.schedule(std::move(blocker), dispenso::ForceQueuingTag());
+            dsched::note("ret sched");
+            for (int i = 0; i < 2000 && !book.ran[bid]; ++i) std::this_thread::sleep_for(std::chrono::microseconds(100));
+            long r0 = dsched::ghostGet(16);
+            std::thread resizer([&] {
+              book.poolNeverZero = 0;
+              dsched::note("call resize");
+              t_inResize = 1;
+              pool.resize(0);
+              t_inResize = 0;
+              dsched::ghostAdd(15, 1);
+              dsched::note("ret resize");
+            });
+            for (int i = 0; i < 2000 && dsched::ghostGet(16) == r0; ++i) std::this_thread::yield();
+            {
+              dispenso::TaskSet ts(pool);
+              dsched::noPreempt(true);
+              int set = ++g_numSets;
+              g_sets[set - 1] = static_cast<dispenso::TaskSetBase*>(&ts);
+              book.parentOf[set] = 0;
+              dsched::noPreempt(false);
+              bulkOn(mainA, ts, set, false, sc.poolSize, 0);
+              release.store(1, std::memory_order_release);
+              // let the resizer finish first: it drains the rings itself and runs the tasks (and their follow-ups)
+              resizer.join();
+              waitOn(ts, set, idsOfSet(set), false, mainA.rng);
+              dsched::note("call wait %d", set);
+              ts.wait();
+              dsched::note("ret wait %d 1 0", set);
+            }
+          }
           if (sleepy) {
             // a ring-routed bulk (count about the pool size) makes the workers prefer their rings …
             {
@@ -538,12 +613,16 @@ int main(int argc, char** argv) {
             }
           }
           int steps = sleepy ? 0 : 1 + (int)mainA.rng.below(4);
+          if (drainy) steps = (int)mainA.rng.below(2);
           for (int s = 0; s < steps; ++s) {
             if (resizes && mainA.rng.below(2) == 0) {
               int n = (int)mainA.rng.below(4);
               if (n == 0) book.poolNeverZero = 0;
               dsched::note("call resize");
+              t_inResize = 1;
               pool.resize(n);
+              t_inResize = 0;
+              dsched::ghostAdd(15, 1);   // resize epoch: generators parked in a bulk call may go on
               dsched::note("ret resize");
             } else if (!chain && mainA.rng.below(8) == 0) {
               // cancel the shared set: sets created with ParentCascadeCancel::kOn inside its tasks are cancelled too
@@ -592,7 +671,12 @@ int main(int argc, char** argv) {
         } else {
           // C03: a task sits where no thread will run it (only the destructor will)
           stranded = 1;
-          if (pool.numThreads() == 0 && pool.work_.size_approx() > 0)
+          bool fromResizer = false;
+          for (int id = 1; id <= nIds; ++id) if (book.setOf[id] == 0 && !book.ended[id] && book.byResizer[id]) fromResizer = true;
+          if (fromResizer)
+            std::printf("PFAIL task scheduled by a task that resize() itself ran was left where no thread runs it | %s threads_now=%ld central_queue=%zu\n",
+                        desc.c_str(), (long)pool.numThreads(), pool.work_.size_approx());
+          else if (pool.numThreads() == 0 && pool.work_.size_approx() > 0)
             std::printf("PFAIL task stranded in the central queue of a pool resized to zero threads while it was being scheduled | %s central_queue=%zu\n",
                         desc.c_str(), pool.work_.size_approx());
           else
@@ -636,6 +720,9 @@ int main(int argc, char** argv) {
         std::printf("PFAIL more exceptions delivered than thrown | %s set=%d seen=%d thrown=%d\n", desc.c_str(), s, (int)book.excSeen[s], (int)book.excThrown[s]);
       if (book.excSeen[s] > book.captures[s])
         std::printf("PFAIL more exceptions delivered than captured | %s set=%d seen=%d captured=%d\n", desc.c_str(), s, (int)book.excSeen[s], (int)book.captures[s]);
+      if (book.excThrown[s] - book.excDirect[s] > 0 && book.excSeen[s] == 0)
+        std::printf("PFAIL exception thrown by a task of the set was never delivered by wait | %s set=%d thrown=%d direct=%d\n", desc.c_str(), s,
+                    (int)book.excThrown[s], (int)book.excDirect[s]);
       if (book.captures[s] > 0 && book.excSeen[s] == 0)
         std::printf("PFAIL captured exception never delivered by wait | %s set=%d captured=%d\n", desc.c_str(), s, (int)book.captures[s]);
     }
